@@ -16,23 +16,29 @@ CHECKS = {
  'C07': ('model_checking', E1, '3.C07'),
  'C08': ('model_checking', E1 + '; all RELR word sequences up to length L; complete (machine,type) product', '3.C08'),
  'C09': ('model_checking', E1 + '; three container views of one model compared', '3.C09'),
- 'C10': ('model_checking', 'explicit-state BFS over API-call histories on the real objects with state fingerprinting; oracle = same query on a fresh object', '3.C10'),
+ 'C10': ('model_checking', 'explicit-state exploration of API-call histories on the real objects: all histories up to length 2, fingerprinted BFS with adversarial stream repositioning, and the complete iterator-interleaving family; oracle = the same query on a fresh object in a pristine process', '3.C10'),
  'C11': ('model_checking', 'complete product of payloads x container transforms x class/order/level/follow_links; relational oracle (dump equality)', '3.C11'),
  'C12': ('model_checking', 'complete products over the opcode table (all ops x operand classes, all ordered pairs, triples over a sub-alphabet, nesting) with re-encoding oracle', '3.C12'),
  'C13': ('model_checking', E1 + '; complete query sets (every boundary address, every section offset)', '3.C13'),
  'C14': ('model_checking', E1 + '; section view vs segment view', '3.C14'),
  'C15': ('model_checking', E1 + '; complete index query sets', '3.C15'),
  'C16': ('model_checking', 'exhaustive enumeration of finite encoding spaces (every byte string <=3, boundary values x paddings x truncations) vs arithmetic definitions', '3.C16'),
- 'C17': ('exploration', 'exhaustive finite-table comparison against vendored registries plus end-to-end decode of every code', '3.C17'),
- 'C18': ('exploration', 'bounded-exhaustive differential enumeration against GNU readelf 2.40 with the project\'s documented tolerances', '3.C18'),
+ 'C17': ('exploration', 'exhaustive finite-table comparison of every exported constant against vendored registries, a vendored snapshot of registry-confirmed names that must stay exported, and consistency of every derived map', '3.C17'),
+ 'C18': ('exploration', 'bounded-exhaustive differential enumeration against GNU readelf 2.40 with the project\'s documented tolerances: corpus x options, one probe file per description-table value, files from the model generators of the other properties (deviation bound k), line/CFI/dump families', '3.C18'),
  'C19': ('fault_enumeration', 'exhaustive fault enumeration (every truncation, every header byte substitution, every field fault and header field-fault pair) with a deterministic work meter', '3.C19'),
  'C20': ('model_checking', E1 + '; every byte-code sequence of length <= 2', '3.C20'),
 }
 TEXT = {
+ 'C10': 'Every API-call history of length <= 2 over an alphabet derived from the file (natural cursors), every history of the iterator-interleaving family (each iterator suspended after 1 or 2 items x every other event, resumed twice; each pair of iterators stepped alternately), and a breadth-first search over fingerprinted object-graph states with explicit stream scrambling and a foreign-file event, on three model files and the vendored corpus files; every transition is compared with the same event on a fresh object computed in a pristine interpreter.',
+ 'C18': 'Every (corpus file, option) pair; one synthesized file per value of every description table; every file the model generators of C01/C03/C04/C07/C08/C09/C13/C14/C15/C20 produce with at most k deviations (k = 1 quick, 2 thorough) and the C05/C06 line/CFI families and a dump family, each compared with GNU readelf under the frozen comparison function of the project. What is outside the envelope is decided mechanically (oracle warns / prints its unknown-value rendering, the clone prints its own, non-ASCII output) and counted. Recorded deviations are listed one by one in known_findings.json.',
+ 'C19': 'Every truncation length, every substitution of the first 64 bytes, every boundary value of every header / section / segment / dynamic / note / hash / version field, every pair of header field faults, and truncation combined with the extended-numbering escapes, on four synthesized seeds and the vendored corpus files; construction may only raise the ELF error type; the enumeration battery runs on a metering stream (deterministic work bound), under an address-space limit and a wall-clock backstop.',
  'C16': 'Every byte string of length <=3 (x tails, x truncation) through both LEB128 decoders, all boundary values at every padding and truncation, 24-bit and fixed-width integers, strings 0..300, blocks, initial length: complete finite products, so a pass is a statement about every input in those spaces, not a sample.',
  'C17': 'Every exported (table,name,value) pair whose name a registry defines is compared; the space is finite and enumerated completely.',
 }
 NOTE = {
+ 'C10': 'Trusted: CPython; the fingerprint walk (instance dicts, containers, stream positions, suspended generator frames). Histories longer than the stated bounds, arguments that are not valid for the file, and concurrent use are outside the claim. Thorough-tier deep searches are time-capped and say so in caps_hit.',
+ 'C18': 'Trusted: /usr/bin/readelf (GNU binutils 2.40; the project pins 2.41 - drift limited to the closed list c18_oracle_drift.json), vendor/compare_output.py (frozen copy of the project\'s comparison), LC_ALL=C.UTF-8. Files outside the stated generators and bounds are outside the claim.',
+ 'C19': 'Trusted: CPython, the metering stream and the mini ELF reader that locates fields (mcx/minielf.py). Time is a deterministic work bound (operations <= 64*len+4096, bytes <= 64*len+65536), memory is peak-RSS growth <= 64*len+256 MiB under RLIMIT_AS 4 GiB; faults beyond the stated classes are outside the claim.',
  'C16': 'Trusted: CPython integer arithmetic; reference LEB128 in mcx/ref/leb.py. Values beyond the stated boundary set and strings longer than 4 bytes without a terminating byte are outside the bound.',
  'C17': 'Trusted: vendored extracts of glibc elf.h and LLVM 14 headers (registry/registry.json) plus registry/abi_documents.json; names no registry defines are counted, not judged.',
 }
@@ -68,7 +74,7 @@ def main():
         'engines': [{'name': 'mcx', 'path': '/verif/mcx', 'serves_properties': [c['property_id'] for c in checks],
                      'kind_free_text': 'home-made explicit exploration engines in Python run directly on the implementation: E1 deviation-bounded choice-point explorer (mcx/core.py), E2 explicit-state history explorer (mcx/history.py), E3 finite enumerators; reference models in mcx/ref'}],
         'checks': checks,
-        'notes': 'All checks: cwd=/verif, honour VERIF_SEED / VERIF_TIER / VERIF_REPO; exit 0 ok, 1 + VIOLATION lines, 2 harness error. Known findings: known_findings.json.',
+        'notes': 'All checks: cwd=/verif, honour VERIF_SEED / VERIF_TIER / VERIF_REPO; exit 0 ok, 1 + VIOLATION lines, 2 harness error. Known findings: known_findings.json (open C18 deviations, each keyed by probe / generator label; fixed: list of the fix: commits). Thorough-tier evidence of the last full run: evidence/thorough/. Detection record: mutants/RESULTS.md (hand-written) and seeded/README.md (108 independently written changes).',
         'not_applicable': na,
     }
     with open(os.path.join(ROOT, 'MANIFEST.json'), 'w') as f:
